@@ -711,6 +711,7 @@ func (em *emitter) emitSelect(selectNode *ast.Select) {
 	em.fb.enterStack()
 
 	chs := make([]int8, len(selectNode.Cases))
+	sends := make([]int8, len(selectNode.Cases))
 	ok := em.fb.newRegister(reflect.Bool)
 	value := [4]int8{
 		intRegister:     em.fb.newRegister(reflect.Int),
@@ -737,7 +738,10 @@ func (em *emitter) emitSelect(selectNode *ast.Select) {
 			chType := em.typ(chExpr)
 			elemType := chType.Elem()
 			chs[i] = em.emitExpr(chExpr, chType)
-			em.emitExprR(cas.Value, elemType, value[kindToType(elemType.Kind())])
+			// Every send case has its own register for the value to send,
+			// because all the values are evaluated before the select.
+			sends[i] = em.fb.newRegister(elemType.Kind())
+			em.emitExprR(cas.Value, elemType, sends[i])
 		}
 	}
 
@@ -760,10 +764,7 @@ func (em *emitter) emitSelect(selectNode *ast.Select) {
 			em.fb.emitCase(false, reflect.SelectRecv, value[kindToType(elemType.Kind())], chs[i])
 		case *ast.Send:
 			// ch <- v
-			chExpr := comm.Channel
-			chType := em.typ(chExpr)
-			elemType := chType.Elem()
-			em.fb.emitCase(false, reflect.SelectSend, value[kindToType(elemType.Kind())], chs[i])
+			em.fb.emitCase(false, reflect.SelectSend, sends[i], chs[i])
 		}
 		em.fb.emitGoto(casesLabel[i])
 	}
